@@ -44,6 +44,7 @@ fn settings_with_scale(s: f32) -> Settings {
 //@ desc: CellBuffer with exactly one occupied cell (x <= 1000, y <= 1000, any char) and the empty CellBuffer, scale = any positive f32 with <= 8 significant bits, exponent -4..6: get_size = (scale*(x+2), 2*scale*(y+2)); empty => (2*scale, 4*scale); so size is linear in scale and moving the cell by (k,n) adds scale*(k, 2n)
 //@ encodes: CellBuffer::get_size, CellBuffer::bounds, Cell::width, Cell::height
 #[kani::proof]
+#[kani::stub(std::io::_print, crate::kstub::noop_print)]
 #[kani::unwind(4)]
 fn o11_3_size_one_cell() {
     let s = any_scale();
@@ -69,6 +70,7 @@ fn o11_3_size_one_cell() {
 //@ desc: CellBuffer with two occupied cells at fixed positions (5,1), (2,7) (BTreeMap with symbolic keys is out of reach): get_size uses the right-most column (5) and the bottom-most row (7) for any scale in the set: (7*scale, 18*scale)
 //@ encodes: CellBuffer::get_size, CellBuffer::bounds
 #[kani::proof]
+#[kani::stub(std::io::_print, crate::kstub::noop_print)]
 #[kani::unwind(6)]
 fn o12_1_size_is_max_cell() {
     let s = any_scale();
@@ -86,3 +88,48 @@ fn o12_1_size_is_max_cell() {
 // NOTE (tried, out of reach): From<StringBuffer> for CellBuffer on a row of three
 // symbolic characters with escape_line stubbed by identity did not finish in
 // 2400 s (String::from_iter + chars + BTreeMap inserts under symbolic conditions).
+
+// ---------------------------------------------------------------------------
+// C04: cells are (display column, row) of the non-blank, non-filler characters.
+// escape_line (pom parser, out of Kani's reach) is stubbed by what it returns
+// for a row without quotes: no escaped text, the row unchanged.
+
+fn stub_escape_line(_line: usize, raw: &str) -> (Vec<(Cell, String)>, String) {
+    let mut s = String::with_capacity(16);
+    s.push_str(raw);
+    (Vec::with_capacity(1), s)
+}
+
+//@ harness: o4_5_cells_are_columns2 props=C04 tier=thorough obl=O4.5 timeout=3400 mem=30
+//@ desc: From<StringBuffer> for CellBuffer on one row of 2 symbolic characters (any scalar except the double quote; NUL filler and blanks included): the buffer holds exactly the non-blank, non-NUL characters, each at the column equal to its index in the column-expanded row (a NUL filler in column 0 keeps the next character in column 1); escape_line stubbed by identity (rows without quotes)
+//@ encodes: From<StringBuffer> for CellBuffer
+#[kani::proof]
+#[kani::stub(std::io::_print, crate::kstub::noop_print)]
+#[kani::unwind(12)]
+#[kani::stub(crate::buffer::cell_buffer::CellBuffer::escape_line, stub_escape_line)]
+fn o4_5_cells_are_columns2() {
+    let cs: [char; 2] = [kani::any(), kani::any()];
+    kani::assume(cs[0] != '"' && cs[1] != '"');
+    let mut row: Vec<char> = Vec::with_capacity(2);
+    row.push(cs[0]);
+    row.push(cs[1]);
+    let mut sb = StringBuffer::new();
+    sb.push(row);
+    let cb = CellBuffer::from(sb);
+    let mut expected = 0;
+    let mut i = 0;
+    while i < 2 {
+        let keep = cs[i] != '\0' && !cs[i].is_whitespace();
+        let got = cb.get(&Cell::new(i as i32, 0));
+        if keep {
+            expected += 1;
+            assert!(got == Some(&cs[i]), "O4.5 a non-blank character is stored at its own display column");
+        } else {
+            assert!(got.is_none(), "O4.5 blanks and NUL fillers are not cells");
+        }
+        i += 1;
+    }
+    kani::cover!(cs[0] == '\0' && expected == 1, "filler then char");
+    assert!(cb.len() == expected, "O4.5 no other cell is created");
+    std::mem::forget(cb);
+}
